@@ -26,7 +26,8 @@ ASSUMPTIONS = [
 REQUIRED_CLASSES = ["nontrivial", "ok_query", "no_ok_query", "command", "empties=100", "empties>=1",
                     "fault_silence", "fault_errline", "fault_raise_write", "fault_raise_read", "no_port",
                     "lowercase_no_ok", "first_read_empty", "fault_after_data_line", "fault_before_data_line",
-                    "request_longer_than_64_bytes", "data_line_begins_with_OK"]
+                    "request_longer_than_64_bytes", "data_line_begins_with_OK", "blank_data_line",
+                    "two_faults_in_one_exchange"]
 QUICK_SHARDS = 4
 
 ebb_serial = sut.load("ebb_serial")
@@ -59,7 +60,7 @@ class Sim:
 
     def step(self, op):
         self.history.append(op)
-        kind, text, empties, fault = op
+        kind, text, empties, fault = op[:4]
         if self.pending_interest:
             self.followed = True
         port, board = self.port, self.board
@@ -87,6 +88,9 @@ class Sim:
         faults = {}
         if fault:
             faults[int(fault[0])] = tuple(fault[1])
+        if len(op) > 4 and op[4]:
+            faults[int(op[4][0])] = tuple(op[4][1])       # a second fault later in the same exchange
+            self.flags.add("two_faults_in_one_exchange")
         port.begin_call(faults)
         name = text.split(",")[0].strip().lower()
         is_query = kind == "query"
@@ -128,6 +132,8 @@ class Sim:
                                        ("raise_write" if int(fault[0]) == 0 else "raise_read")))
             if fault[1][0] == "silence" and is_query and int(fault[0]) <= 1 and result != "":
                 self.fail("%s: nothing arrived but query returned %r, expected ''" % (what, result))
+            if fault[1][0] == "errline" and len(op) > 4 and op[4]:
+                pass                                   # error reply and then a dead link: only "never raises" applies
             if fault[1][0] == "raise" and is_query:
                 # what had arrived when the link failed decides the answer: the request's data line if it
                 # was already read, otherwise the empty string
@@ -153,6 +159,8 @@ class Sim:
             expected = data_lines[0].decode("ascii") if data_lines else ""
             if expected.startswith("OK"):
                 self.flags.add("data_line_begins_with_OK")
+            if expected.strip() == "" and expected != "":
+                self.flags.add("blank_data_line")
             if result != expected:
                 self.fail("%s returned %r; the board's reply to this request was %r"
                           % (what, result, expected))
@@ -186,6 +194,10 @@ def ops(draw):
             fault = [draw(st.sampled_from([0, 1])), ["silence"]]
         else:
             fault = [1, ["errline"]]
+            if draw(st.booleans()):
+                # the device answers with an error line and the link then fails while waiting for the OK
+                second = [draw(st.integers(2, 5)), ["raise", draw(st.sampled_from(ALL_EXC))]]
+                return [kind, text, [0, draw(st.sampled_from([0, 1, 2]))], fault, second]
     return [kind, text, empties, fault]
 
 
@@ -220,6 +232,8 @@ def grid():
                       [1, ["raise", "OSError"]], [2, ["raise", "SerialException"]],
                       [3, ["raise", "SerialException"]], [3, ["raise", "RuntimeError"]], [4, ["raise", "OSError"]]):
             yield [[kind, text, [1, 0], fault], ["query", "QB\r", [0, 0], None]]
+        for second in ([2, ["raise", "SerialException"]], [3, ["raise", "OSError"]], [2, ["raise", "RuntimeError"]]):
+            yield [[kind, text, [0, 1], [1, ["errline"]], second], ["query", "QB\r", [0, 0], None]]
 
 
 def grid_body(ctx, case):
